@@ -258,7 +258,7 @@ def rule_r6(p, res):
 
 
 # rules of sibling properties over code paths this property's statement also quantifies over (DESIGN.md section 3, shared rules)
-ALSO = ['C06.R2', 'C09.R3', 'C09.R4', 'C09.R7', 'C09.R2']
+ALSO = ['C06.R2', 'C09.R3', 'C09.R4', 'C09.R7', 'C09.R2', 'C07.R6']
 
 RULES = [rule_r1, rule_r2, rule_r3, rule_r4, rule_r5, rule_r6]
 
